@@ -131,13 +131,13 @@ def injections(gen, cid, o):
     walk(gen, cid, o, [], sites)
     out = []
 
-    def mut(f, site, custom):
+    def mut(f, site, custom, extra=None):
         x = copy.deepcopy(o)
         try:
             f(x)
         except (KeyError, IndexError, TypeError):
             return
-        out.append((site, custom, x))
+        out.append((site, custom, x) if extra is None else (site, custom, x, extra))
 
     for kind, path, ex in sites:
         ps = "/".join(str(p) for p in path) or "<top>"
@@ -152,6 +152,13 @@ def injections(gen, cid, o):
             if r.random() < 0.25:
                 mut(lambda x: at(x, path).__setitem__("custom_properties", {"x_via_loophole": 1}),
                     "custom_properties key at %s (%s)" % (ps, ex["cid"]), True)
+            if path and "/<" not in ex["cid"]:
+                # the nested value given as a library OBJECT built beforehand under allow_custom=True (constructor route)
+                pre = {"prebuilt": [{"path": list(path), "cid": ex["cid"]}]}
+                mut(lambda x: at(x, path).__setitem__(name, r.choice(["v", 1, True])),
+                    "pre-built instance carrying custom property %s at %s (%s)" % (name, ps, ex["cid"]), True, pre)
+                if r.random() < 0.3:
+                    mut(lambda x: None, "pre-built instance without custom content at %s (%s)" % (ps, ex["cid"]), False, pre)
         elif kind == "hashes":
             hn = r.choice(["FOO-HASH", "x_hash", "SHA-999", "CRC32"])
             mut(lambda x: at(x, path).__setitem__(hn, "abcd"), "hash algorithm %s at %s" % (hn, ps), True)
@@ -216,6 +223,16 @@ def injections(gen, cid, o):
                 "custom property in registered custom object as bundle member at %s" % ps, True)
             mut(lambda x: at(x, path).append({"type": "x-custom-object", "id": "x-custom-object--" + U1, "foo": 1}),
                 "unregistered object type as bundle member at %s" % ps, True)
+            # an unregistered type that declares itself through an (unregistered) extension definition: parse() hands
+            # the dictionary back even in strict mode; whatever the bundle then does, flag and strict reparse must agree
+            et = r.choice(["new-sdo", "new-sco", "new-sro"])
+            nm = {"type": "x-new-thing", "id": "x-new-thing--" + U1, "created": "2016-01-01T00:00:00.000Z",
+                  "modified": "2016-01-01T00:00:00.000Z", "name": "n",
+                  "extensions": {"extension-definition--" + U1: {"extension_type": et}}}
+            if ex["ver"] == "2.1":
+                nm["spec_version"] = "2.1"
+            mut(lambda x: at(x, path).append(dict(nm)),
+                "unregistered object type declared by an extension-definition %s as bundle member at %s" % (et, ps), False)
         elif kind == "observed-members":
             mut(lambda x: at(x, path).__setitem__("99", {"type": "x-custom-observable", "value": "v"}),
                 "unregistered observable type as observed-data member at %s" % ps, True)
@@ -254,7 +271,7 @@ def correspondence(run, cases, variants):
     """flag of the allow-mode (and strict) run + strict reparse outcome: model against the library"""
     ccases = []
     for c in cases:
-        if not isinstance(c["data"].get("type", ""), str):
+        if not isinstance(c["data"].get("type", ""), str) or c.get("prebuilt"):
             continue
         for allow in ((True, False) if c.get("custom") else (True,)):
             ccases.append({"op": "parse" if c["route"] == "parse" else "construct", "cid": c["cid"], "data": c["data"],
@@ -320,16 +337,20 @@ def gen_cases(run, per_class):
             inj = injections(gen, cid, o)
             # every site once for the first objects of a class, a sample afterwards
             chosen = inj if i < 2 else r.sample(inj, min(len(inj), 6))
-            for site, custom, x in chosen:
+            for tup in chosen:
+                site, custom, x = tup[:3]
+                extra = tup[3] if len(tup) > 3 else {}
                 rt = route if r.random() < 0.8 else ("construct" if route == "parse" else "parse")
+                if extra.get("prebuilt"):
+                    rt = "construct"
                 if rt == "construct" and site.startswith("custom_properties key at <top>"):
                     custom = False      # the constructor's custom_properties= argument is itself the request
-                cs = {"route": rt, "cid": cid, "data": x, "custom": custom, "site": site}
+                cs = dict({"route": rt, "cid": cid, "data": x, "custom": custom, "site": site}, **extra)
                 if rt == "construct" and site.startswith("custom_properties key at <top>"):
                     cs["requested"] = True
                 cases.append(cs)
                 key = site.split(" at ")[0]
-                for w in ("custom property inside", "custom property given as null", "custom property in registered", "custom property", "hash algorithm",
+                for w in ("pre-built instance carrying", "pre-built instance without", "custom property inside", "custom property given as null", "custom property in registered", "custom property", "hash algorithm",
                           "only hash algorithm", "recognised hash algorithm", "reference to custom type",
                           "reference to registered custom type", "reference to registered type", "unregistered extension type"):
                     if key.startswith(w):
@@ -392,7 +413,9 @@ def check(run):
     run.coverage["rule"] = (
         "for every registered object/observable class of STIX 2.0 and 2.1: %d generated objects; for the first two every "
         "injection site found by walking the object along the frozen tables (custom property at each object position, "
-        "custom_properties key, hash algorithm, reference, extension, bundle / observed-data member), six sampled sites "
+        "custom_properties key, hash algorithm, reference, extension, bundle / observed-data member, every nested object also "
+        "given as a library object built beforehand under allow_custom=True with and without custom content, bundle members "
+        "of unregistered types declared by an extension definition), six sampled sites "
         "for the others; each case under allow_custom False and True plus the strict reparse of the allow-mode "
         "serialization; non-trivial = the allow-mode or the strict run produced an object or the case carries custom content"
         % per_class)
